@@ -79,7 +79,7 @@ class ManagedFilter:
         # const
         max_dt = self._impl.config.max_dt_sec
         if self.current_time > output_time:
-            max_dt = -0.1
+            max_dt = -max_dt
 
         state = self.state
         covariance = self.covariance
